@@ -37,7 +37,16 @@ class FuncReport:
 
     def vacuous_probes(self):
         # a probe that IS provable means contradictory hypotheses
-        return [o for o in self.probes if self.results.get(o.name, {}).get("verdict") == "unsat"]
+        # (a loop reached on several paths has one probe per path: it is vacuous only if no path reaches it)
+        groups = {}
+        for o in self.probes:
+            base = o.name.split("[")[0] if o.name.endswith("]") else o.name
+            groups.setdefault(base, []).append(o)
+        out = []
+        for base, os_ in groups.items():
+            if all(self.results.get(o.name, {}).get("verdict") == "unsat" for o in os_):
+                out += os_
+        return out
 
 
 def load_registry(modnames, engine_cls=Engine):
@@ -49,6 +58,9 @@ def load_registry(modnames, engine_cls=Engine):
             mod.setup(reg)
         for c in mod.CONTRACTS:
             reg.add(c)
+            contracts.append(c)
+        # call-site specific variants: verified like any contract, but not the default at call sites
+        for c in getattr(mod, "VARIANTS", []):
             contracts.append(c)
     return reg, contracts
 
@@ -100,6 +112,15 @@ def verify_all(reg, contracts, engine_cls=Engine, timeout_ms=10000, jobs=None, d
             o.hyps.append(ax)
         allobls += rep.obligations
     results = solve.discharge(allobls, timeout_ms=timeout_ms, jobs=jobs, dump_dir=dump_dir, use_cvc5=use_cvc5)
+    # an `unknown` is retried once with a much larger budget (both solvers) before it is reported:
+    # verdicts must not flip because the machine is busy
+    again = [o for o in allobls if not o.expect_fail and results[o.name]["verdict"] == "unknown"]
+    if again:
+        r2 = solve.discharge(again, timeout_ms=timeout_ms * 6, jobs=jobs, use_cvc5=use_cvc5)
+        for o in again:
+            r2[o.name]["time"] = round(r2[o.name]["time"] + results[o.name]["time"], 3)
+            r2[o.name]["retried"] = True
+            results[o.name] = r2[o.name]
     for rep in reports:
         rep.results = {o.name: results[o.name] for o in rep.obligations}
     return reports
